@@ -19,8 +19,9 @@ MANIFEST = {
             "certificate/group/signature selection, extension echo rules and both sides' acceptance checks, over suite tables "
             "regenerated from constants.py on every run) — every negotiated parameter (version, suite with its registered "
             "cipher/MAC/key exchange, curve, DH/SRP size, signature schemes, peer keys) is in the client's offer and allowed by "
-            "both validated settings (selected_in_offer_and_policy_partial, version_inside_both_ranges, filterSuites_inside_policy, "
-            "accepted_chain_inside_policy; the clause 'otherwise an alert' fails: failure_without_alert), both endpoints' "
+            "both validated settings (selected_in_offer_and_policy, version_inside_both_ranges, filterSuites_inside_policy, "
+            "accepted_chain_inside_policy) and otherwise the outcome is an alert, no exception escapes (otherwise_an_alert), "
+            "compatible settings complete (compatible_completes, with counterexample theorems for the excluded regions), both endpoints' "
             "session views are the same function of the transcript for every key schedule (views_agree), negotiate is a "
             "function (negotiate_deterministic), the selected version is the highest common one (version_is_max_common, "
             "no_common_version_fails, client_too_old_protocol_version). Tie: live handshakes between two real TLSConnection objects over seeded pairs of "
@@ -1054,7 +1055,7 @@ def directed_cases(ctx):
     out.append(mk(cs={"minVersion": (3, 0)}, ss={"minVersion": (3, 0), "maxVersion": (3, 0), "requireExtendedMasterSecret": True}, scred="ecdsa"))
     out.append(mk(cs={"maxVersion": (3, 1)}, ss={}))
     out.append(mk(cs={}, ss={"maxVersion": (3, 2)}, scred="dsa"))
-    # local credentials unusable for what was negotiated (each is a listed finding: keep them exercised)
+    # local credentials unusable for what was negotiated (six repaired escapes: each must end in an alert)
     out.append(mk(cs={"maxVersion": (3, 3), "rsaSigHashes": []}, ss={"maxVersion": (3, 3)}, scred="ecdsa", ccred="client_rsa", reqCert=True))
     out.append(mk(cs={"maxVersion": (3, 2)}, ss={"maxVersion": (3, 2)}, scred="ed25519"))
     out.append(mk(cs={"maxVersion": (3, 2)}, ss={"maxVersion": (3, 2)}, scred="ed448"))
